@@ -1386,6 +1386,33 @@ def dict_lookup(I: Any, items: List[Tuple[Term, Term]], key: Term, st: Any, wher
     return ("lookup", tuple(maybe), key2)
 
 
+def dict_get(I: Any, items: List[Tuple[Term, Term]], key: Term, default: Term, st: Any, where: str, desc: str) -> Term:
+    """d.get(key, default) for a table with known entries.  A key that is a choice gives the choice of the results; a key
+    that is itself read from a table of constants gives the composed table (k -> d.get(t[k], default))."""
+    from .interp import ite as _ite
+    if isinstance(key, tuple) and len(key) == 4 and key[0] == "ite":
+        return _ite(key[1], dict_get(I, items, key[2], default, st, where, desc), dict_get(I, items, key[3], default, st, where, desc))
+    if isinstance(key, tuple) and len(key) == 3 and key[0] == "lookup" and key[1] and all(_const_key(v_) for _, v_ in key[1]):
+        comp = tuple((k_, dict_get(I, items, v_, default, st, where, desc)) for k_, v_ in key[1])
+        if len({repr(v_) for _, v_ in comp}) == 1:
+            return comp[0][1]
+        return ("lookup", comp, key[2])
+    p0 = len(st.pending)
+    v = dict_lookup(I, items, key, st, where, desc)
+    # .get never raises: turn the KeyError guard into a default
+    conds = [cnd for (e, cnd, w, nev) in st.pending[p0:] if e == "KeyError"]
+    del st.pending[p0:]
+    if not conds:
+        return v
+    if is_c(conds[0]) and conds[0][1] is True:
+        return default
+    return ite_pos(conds[0], default, v)
+
+
+def _const_key(v: Term) -> bool:
+    return isinstance(v, tuple) and bool(v) and (v[0] in ("c", "enum") or (v[0] == "seq" and len(v) == 3 and all(isinstance(a, tuple) and a[:1] == ("L",) for a in v[2])))
+
+
 def key_missing_cond(I: Any, key: Term, keys: Tuple[Term, ...]) -> Term:
     """Condition `key not in keys`, folded when the key's type is covered by the keys."""
     if key[0] == "sym" and isinstance(key[2], tuple) and key[2] and key[2][0] == "enum":
@@ -2027,17 +2054,7 @@ def call_method(I: Any, recv: Term, name: str, args: List[Term], kwargs: Dict[st
                 return c(None)
         if ho.kind == "dict" and not ho.symbolic:
             if name == "get":
-                p0 = len(st.pending)
-                v = dict_lookup(I, ho.items, args[0], st, where, I.describe(recv, st))
-                # .get never raises: turn the KeyError guard into a default
-                conds = [cnd for (e, cnd, w, nev) in st.pending[p0:] if e == "KeyError"]
-                del st.pending[p0:]
-                default = args[1] if len(args) > 1 else c(None)
-                if not conds:
-                    return v
-                if is_c(conds[0]) and conds[0][1] is True:
-                    return default
-                return ite_pos(conds[0], default, v)
+                return dict_get(I, ho.items, args[0], args[1] if len(args) > 1 else c(None), st, where, I.describe(recv, st))
             if name == "setdefault" and 1 <= len(args) <= 2 and not kwargs:
                 # keys that are not syntactically equal are taken to be different (as for set.add: the rules that rely on
                 # it state what identity means, e.g. C10 R10.3)
@@ -2141,17 +2158,7 @@ def call_method(I: Any, recv: Term, name: str, args: List[Term], kwargs: Dict[st
             return r
     if recv[0] in ("cdict",):
         if name == "get":
-            p0 = len(st.pending)
-            v = dict_lookup(I, list(recv[1]), args[0], st, where, "const-dict")
-            conds = [cnd for (e, cnd, w, nev) in st.pending[p0:] if e == "KeyError"]
-            del st.pending[p0:]
-            default = args[1] if len(args) > 1 else c(None)
-            from .interp import ite
-            if not conds:
-                return v
-            if is_c(conds[0]) and conds[0][1] is True:
-                return default
-            return ite_pos(conds[0], default, v)
+            return dict_get(I, list(recv[1]), args[0], args[1] if len(args) > 1 else c(None), st, where, "const-dict")
         if name == "keys":
             return ("tuple", tuple(k for k, _ in recv[1]))
         if name == "values":
